@@ -426,7 +426,10 @@ class Hang(BaseException):
 
 
 class watchdog:
-    """with watchdog(5): real_code()  -- raises Hang in the main thread if the block runs longer"""
+    """with watchdog(5): real_code()  -- raises Hang in the main thread if the block does not return.
+    The limit is CPU time of this process (ITIMER_PROF): code that loops for ever burns it, while a process that is merely
+    starved (a loaded machine, memory pressure, a slow disk) does not - so load cannot turn into a false "did not return".
+    A call that blocks without using the CPU is caught by a wall clock limit twelve times as long (at least 60 s)."""
 
     def __init__(self, seconds=None):
         self.seconds = seconds or WATCHDOG_S
@@ -440,14 +443,18 @@ class watchdog:
         import threading
         self.active = threading.current_thread() is threading.main_thread()
         if self.active:
-            self.old = signal.signal(signal.SIGALRM, self._fire)
+            self.old = signal.signal(signal.SIGPROF, self._fire)
+            self.oldr = signal.signal(signal.SIGALRM, self._fire)
             # repeating: code that swallows the first Hang (a bare except around a loop) is interrupted again
-            signal.setitimer(signal.ITIMER_REAL, self.seconds, 1.0)
+            signal.setitimer(signal.ITIMER_PROF, self.seconds, 1.0)
+            signal.setitimer(signal.ITIMER_REAL, max(12 * self.seconds, 60), 5.0)
         return self
 
     def __exit__(self, *a):
         import signal
         if self.active:
+            signal.setitimer(signal.ITIMER_PROF, 0)
             signal.setitimer(signal.ITIMER_REAL, 0)
-            signal.signal(signal.SIGALRM, self.old)
+            signal.signal(signal.SIGPROF, self.old)
+            signal.signal(signal.SIGALRM, self.oldr)
         return False
